@@ -46,10 +46,46 @@ def read_log(log):
     return out
 
 
+# "subdirs" input layout: the same file name occurs once in each of these directories
+GROUPS = {"grpA": "a", "grpB": "b"}
+
+
 def key_of(identifier):
-    """record key from an input identifier (path string, Path, DataMember): file name without the input suffix"""
-    name = os.path.basename(str(identifier))
+    """record key from an input identifier (path string, Path, DataMember): file name without the input suffix; in the
+    subdirs layout (equal file names in different directories) the directory's letter is appended"""
+    text = str(identifier)
+    name = os.path.basename(text)
+    key = name[: -len(IN_SUFFIX)] if name.endswith(IN_SUFFIX) else name
+    return key + GROUPS.get(os.path.basename(os.path.dirname(text)), "")
+
+
+# --- custom id_from_source functions for apply_to (each maps sources differently from get_unique_id) ------------------
+
+
+def _src_text(x):
+    return x.source if isinstance(x, Item) else str(x)
+
+
+def _stem(x):
+    name = os.path.basename(_src_text(x))
     return name[: -len(IN_SUFFIX)] if name.endswith(IN_SUFFIX) else name
+
+
+def id_upper(x):
+    return _stem(x).upper()
+
+
+def id_tagged(x):
+    """its own suffix rule: strips the input suffix and appends a version tag"""
+    return _stem(x) + "_v2"
+
+
+def id_dir_name(x):
+    """directory + name, so that equal file names in different directories stay apart"""
+    return os.path.basename(os.path.dirname(_src_text(x))) + "-" + _stem(x)
+
+
+ID_FUNCS = {"upper": id_upper, "tagged": id_tagged, "dir-name": id_dir_name}
 
 
 class PlannedError(Exception):
@@ -270,8 +306,60 @@ class c14_to_seqs(_Base):
         return _generic_main(self, val, ok=lambda: to_seqs(val))
 
 
-GENERIC = {"alpha": c14_alpha, "beta": c14_beta, "gamma": c14_gamma, "watch": c14_watch, "seqs": c14_to_seqs}
-TYPED = {"alpha", "beta", "seqs"}
+# --- apps defined from FUNCTIONS, configured with mutable arguments which they mutate in place -------------------------
+# define_app copies the configured arguments for every call, so what one record does to them must never show up in
+# another record: the result depends on the record only.
+
+FN_CFG = {"bucket": ["seed"], "memo": {"m": 0}, "marks": ["s"], "table": {"t": 0}, "order": ["o"]}
+
+
+@define_app
+def c14_fn_mut(val: dict, bucket: list, memo: dict = None, marks: set = None, pos: int = 0, log: str = None) -> DictOut:
+    """configured with a positional list, a keyword dict and a keyword set; mutates all three"""
+    if not isinstance(val, dict) or "key" not in val:
+        emit(log, ev="opaque", step=pos, name="c14_fn_mut", pid=os.getpid(), cls=type(val).__name__)
+        return val
+    key = val["key"]
+    emit(log, ev="start", key=key, step=pos, name="c14_fn_mut", pid=os.getpid(), t=time.monotonic())
+    try:
+        bucket.append(key)
+        memo[key] = len(memo)
+        marks.add(key)
+        out = _stamp(val, "c14_fn_mut")
+        out["cfg"] = {"bucket": list(bucket), "memo": dict(memo), "marks": sorted(marks)}
+        return out
+    finally:
+        emit(log, ev="finish", key=key, step=pos, name="c14_fn_mut", pid=os.getpid(), t=time.monotonic())
+
+
+@define_app
+def c14_fn_kw(val: dict, table: dict, order: list = None, pos: int = 0, log: str = None) -> DictOut:
+    """configured with a positional dict and a keyword list; mutates both"""
+    if not isinstance(val, dict) or "key" not in val:
+        emit(log, ev="opaque", step=pos, name="c14_fn_kw", pid=os.getpid(), cls=type(val).__name__)
+        return val
+    key = val["key"]
+    emit(log, ev="start", key=key, step=pos, name="c14_fn_kw", pid=os.getpid(), t=time.monotonic())
+    try:
+        table[key] = len(table)
+        order.insert(0, key)
+        out = _stamp(val, "c14_fn_kw")
+        out["cfg2"] = {"table": dict(table), "order": list(order)}
+        return out
+    finally:
+        emit(log, ev="finish", key=key, step=pos, name="c14_fn_kw", pid=os.getpid(), t=time.monotonic())
+
+
+def fn_expected(step, key):
+    """what a function step adds to a record, whatever was processed before it (the model of 'called alone')"""
+    if step == "fn":
+        return "cfg", {"bucket": FN_CFG["bucket"] + [key], "memo": {**FN_CFG["memo"], key: len(FN_CFG["memo"])}, "marks": sorted(FN_CFG["marks"] + [key])}
+    return "cfg2", {"table": {**FN_CFG["table"], key: len(FN_CFG["table"])}, "order": [key] + FN_CFG["order"]}
+
+
+GENERIC = {"alpha": c14_alpha, "beta": c14_beta, "gamma": c14_gamma, "watch": c14_watch, "seqs": c14_to_seqs, "fn": c14_fn_mut, "fn2": c14_fn_kw}
+TYPED = {"alpha", "beta", "seqs", "fn", "fn2"}
+PLANLESS = {"fn", "fn2"}  # steps that take no plan: never the planned failing step
 
 
 def build_chain(steps, plan, log, gate=None):
@@ -279,7 +367,12 @@ def build_chain(steps, plan, log, gate=None):
     app = c14_load(pos=0, plan=plan, log=log, gate=gate)
     names = ["c14_load"]
     for i, s in enumerate(steps, start=1):
-        nxt = GENERIC[s](pos=i, plan=plan, log=log)
+        if s == "fn":
+            nxt = c14_fn_mut(list(FN_CFG["bucket"]), memo=dict(FN_CFG["memo"]), marks=set(FN_CFG["marks"]), pos=i, log=log)
+        elif s == "fn2":
+            nxt = c14_fn_kw(dict(FN_CFG["table"]), order=list(FN_CFG["order"]), pos=i, log=log)
+        else:
+            nxt = GENERIC[s](pos=i, plan=plan, log=log)
         names.append(type(nxt).__name__)
         app = app + nxt
     return app, names
